@@ -6,6 +6,7 @@ import (
 	"fmt"
 	"path"
 	"regexp"
+	"slices"
 	"strings"
 
 	"github.com/hknutzen/Netspoc-Approve/go/pkg/deviceconf"
@@ -120,6 +121,9 @@ func (s *State) ParseConfig(data []byte, fName string) (
 	if err != nil {
 		return nil, err
 	}
+	if err := checkNull(config); err != nil {
+		return nil, err
+	}
 	if path.Ext(fName) == ".raw" {
 		if err := checkRaw(config); err != nil {
 			return nil, err
@@ -163,6 +167,34 @@ func checkRaw(c *NsxConfig) error {
 	return nil
 }
 
+// Check for JSON value null inside of lists.
+func checkNull(c *NsxConfig) error {
+	isNull := false
+	for _, p := range c.Policies {
+		if p == nil {
+			isNull = true
+			break
+		}
+		if slices.Contains(p.Rules, nil) {
+			isNull = true
+		}
+	}
+	for _, g := range c.Groups {
+		if g == nil || slices.Contains(g.Expression, nil) {
+			isNull = true
+		}
+	}
+	for _, s := range c.Services {
+		if s == nil || slices.Contains(s.ServiceEntries, nil) {
+			isNull = true
+		}
+	}
+	if isNull {
+		return fmt.Errorf("Unexpected null in list of JSON config")
+	}
+	return nil
+}
+
 func checkConfigValidity(c *NsxConfig) error {
 	for _, p := range c.Policies {
 		for _, r := range p.Rules {
@@ -175,6 +207,9 @@ func checkConfigValidity(c *NsxConfig) error {
 	for _, g := range c.Groups {
 		if len(g.Expression) != 1 {
 			return fmt.Errorf("Expecting exactly one expression in group %s", g.Id)
+		}
+		if len(g.Expression[0].IPAddresses) == 0 {
+			return fmt.Errorf("Expecting IP addresses in group %s", g.Id)
 		}
 	}
 	return nil
